@@ -46,3 +46,248 @@ def tensor():
                 print('REPLAY: VIOLATION-CONFIRMED tensor-product Gauss points/weights are inconsistent')
                 return
     print('REPLAY: not reproduced')
+
+
+# ---- index partition of sample.py (contracts/samplepart.py) -------------------------------------------------------------
+
+def _mk(counts, space='X', perm=None):
+    """a real Sample with len(counts) elements, counts[e] points in element e; perm = custom index (a permutation) or None"""
+    from nutils import sample, pointsseq, points, transformseq, types
+    pts = [points.CoordsPoints(types.arraydata(numpy.linspace(0, 1, n + 2)[1:-1, None].copy())) for n in counts]
+    ps = pointsseq.PointsSequence.from_iter(pts, 1)
+    tr = transformseq.IndexTransforms(1, len(counts))
+    return sample.Sample.new(space, (tr,), ps, index=None if perm is None else numpy.asarray(perm))
+
+
+def _operands(space, rng):
+    out = []
+    for counts in ([2, 1, 3], [1, 2], [3], [2, 0, 1], [1, 1, 1, 2]):
+        out.append((_mk(counts, space), list(counts)))
+        n = sum(counts)
+        out.append((_mk(counts, space, rng.permutation(n)), list(counts)))
+    return out
+
+
+def _part_problems(s, counts, expected=None):
+    """PART(s) checked natively: the index arrays are disjoint, cover range(npoints), have the advertised lengths (and order)."""
+    probs = []
+    if s.nelems != len(counts):
+        return ['nelems = %d, expected %d' % (s.nelems, len(counts))]
+    if s.npoints != sum(counts):
+        probs.append('npoints = %d, expected %d' % (s.npoints, sum(counts)))
+    try:
+        index = [numpy.asarray(s.getindex(e)) for e in range(s.nelems)]
+    except Exception as ex:
+        return probs + ['getindex raised %s: %s' % (type(ex).__name__, ex)]
+    for e, ind in enumerate(index):
+        if ind.ndim != 1 or len(ind) != counts[e]:
+            probs.append('len(getindex(%d)) = %s, the element has %d points' % (e, ind.shape, counts[e]))
+    flat = numpy.concatenate([i.ravel() for i in index]) if index else numpy.zeros(0, int)
+    if sorted(flat.tolist()) != list(range(sum(counts))):
+        probs.append('index arrays %s do not partition range(%d)' % ([i.tolist() for i in index], sum(counts)))
+    if expected is not None and not probs:
+        for e, (ind, exp) in enumerate(zip(index, expected)):
+            if ind.tolist() != list(exp):
+                probs.append('getindex(%d) = %s, documented order gives %s' % (e, ind.tolist(), list(exp)))
+                break
+    return probs
+
+
+def _cached(tag, fn):
+    """The family searches below are deterministic functions of the source tree; a failing check replays the same search
+    once per refuted obligation, so the printed result is memoised per (tag, content of sample.py/points.py)."""
+    import hashlib, os, io, contextlib, nutils
+    d = os.path.dirname(nutils.__file__)
+    h = hashlib.sha1(tag.encode())
+    for f in ('sample.py', 'points.py', 'pointsseq.py'):
+        h.update(open(os.path.join(d, f), 'rb').read())
+    h.update(open(__file__, 'rb').read())
+    cdir = os.path.join(os.path.expanduser('~'), '.cache', 'verif-scratch', 'c09-replay-cache')
+    path = os.path.join(cdir, h.hexdigest())
+    try:
+        print(open(path).read(), end='')
+        return
+    except OSError:
+        pass
+    buf = io.StringIO()
+    with contextlib.redirect_stdout(buf):
+        fn()
+    print(buf.getvalue(), end='')
+    try:
+        os.makedirs(cdir, exist_ok=True)
+        tmp = path + '.%d' % os.getpid()
+        open(tmp, 'w').write(buf.getvalue())
+        os.replace(tmp, path)
+    except OSError:
+        pass
+
+
+def part(kind, clause=''):
+    _cached('part:' + kind, lambda: _part(kind, 'any'))
+
+
+def twin(kind):
+    _cached('twin:' + kind, lambda: _twin(kind))
+
+
+def _part(kind, clause=''):
+    """Native replay for the partition contracts: the solver's model talks about abstract operands (uninterpreted cnt/idx),
+    so instead of mapping it a small concrete family of real samples of the class is searched for a PART violation."""
+    from nutils import sample, types
+    rng = numpy.random.RandomState(1)
+    cases = []
+    if kind == '_Empty':
+        s = sample.Sample.empty(('X',), 1)
+        bad = []
+        if s.nelems != 0 or s.npoints != 0:
+            bad.append('nelems/npoints = %d/%d' % (s.nelems, s.npoints))
+        for i in (-1, 0, 1):
+            try:
+                s.getindex(i)
+                bad.append('getindex(%d) returned' % i)
+            except IndexError:
+                pass
+            except Exception as ex:
+                bad.append('getindex(%d) raised %s' % (i, type(ex).__name__))
+        return _report(kind, clause, [('empty', bad)] if bad else [])
+    ops1 = _operands('X', rng)
+    if kind in ('_DefaultIndex', '_CustomIndex'):
+        for s, counts in ops1:
+            if type(s).__name__ != kind:
+                continue
+            off = numpy.cumsum([0] + counts)
+            default = [list(range(off[e], off[e + 1])) for e in range(len(counts))]
+            if kind == '_DefaultIndex':
+                probs = _part_problems(s, counts, default)
+                if list(numpy.asarray(s.offsets)) != list(off):
+                    probs.append('offsets = %s, expected %s' % (list(numpy.asarray(s.offsets)), list(off)))
+                for i in (-1, len(counts)):
+                    try:
+                        s.getindex(i)
+                        probs.append('getindex(%d) returned for nelems=%d' % (i, len(counts)))
+                    except IndexError:
+                        pass
+                    except Exception as ex:
+                        probs.append('getindex(%d) raised %s' % (i, type(ex).__name__))
+            else:
+                perm = numpy.asarray(s._index)
+                probs = _part_problems(s, counts, [[perm[p] for p in d] for d in default])
+            cases.append(('counts=%s' % counts, probs))
+    elif kind in ('_Add', '_Mul', '_Zip'):
+        ops2 = _operands('X' if kind == '_Add' else 'Y', rng)
+        for s1, c1 in ops1[:4]:
+            for s2, c2 in (ops2[:4] if kind != '_Zip' else ops2):
+                try:
+                    i1, i2 = [s1.getindex(e).tolist() for e in range(s1.nelems)], [s2.getindex(e).tolist() for e in range(s2.nelems)]
+                    if kind == '_Add':
+                        s = sample._Add(s1, s2)
+                        counts = c1 + c2
+                        exp = i1 + [[p + s1.npoints for p in ind] for ind in i2]
+                    elif kind == '_Mul':
+                        s = sample._Mul(s1, s2)
+                        counts = [a * b for a in c1 for b in c2]
+                        exp = [[p1 * s2.npoints + p2 for p1 in a for p2 in b] for a in i1 for b in i2]
+                    else:
+                        if s1.npoints != s2.npoints:
+                            continue
+                        s = sample._Zip(s1, s2)
+                        counts, exp = [len(s.getindex(e)) for e in range(s.nelems)], None
+                        if list(numpy.asarray(s._sizes)) != counts:
+                            cases.append(('zip', ['len(getindex(e)) differs from _sizes']))
+                    probs = _part_problems(s, counts, exp)
+                except Exception as ex:
+                    probs = ['%s: %s' % (type(ex).__name__, ex)]
+                cases.append(('%s of counts %s and %s' % (kind, c1, c2), probs))
+    elif kind == '_TakeElements':
+        for par, cp in ops1 + [(sample._Mul(ops1[0][0], _mk([2, 1], 'Y')), [a * b for a in ops1[0][1] for b in [2, 1]])]:
+            for ind in ([0], [par.nelems - 1, 0], list(range(par.nelems))[::-1], [0, 0, par.nelems - 1]):
+                try:
+                    s = sample._TakeElements(par, types.arraydata(numpy.array(ind)))
+                    counts = [cp[i] for i in ind]
+                    off = numpy.cumsum([0] + counts)
+                    probs = _part_problems(s, counts, [list(range(off[e], off[e + 1])) for e in range(len(ind))])
+                    if list(numpy.asarray(s._offsets)) != list(off):
+                        probs.append('_offsets = %s, expected %s' % (list(numpy.asarray(s._offsets)), list(off)))
+                    for i in (-1, len(ind)):
+                        try:
+                            s.getindex(i)
+                            probs.append('getindex(%d) returned for nelems=%d' % (i, len(ind)))
+                        except IndexError:
+                            pass
+                        except Exception as ex:
+                            probs.append('getindex(%d) raised %s' % (i, type(ex).__name__))
+                except Exception as ex:
+                    probs = ['%s: %s' % (type(ex).__name__, ex)]
+                cases.append(('take %s of counts %s' % (ind, cp), probs))
+    else:
+        print('REPLAY: no native recipe for', kind)
+        return
+    _report(kind, clause, [(n, p) for n, p in cases if p], len(cases))
+
+
+def _report(kind, clause, failing, ncases=1):
+    print('searched %d concrete %s samples (small family; the solver model speaks about abstract operands), clause %s' % (ncases, kind, clause))
+    if failing:
+        name, probs = failing[0]
+        print('%d failing; first: %s: %s' % (len(failing), name, '; '.join(probs[:3])))
+        print('REPLAY: VIOLATION-CONFIRMED %s.getindex does not partition range(npoints) in the documented order' % kind)
+    else:
+        print('REPLAY: not reproduced on the small family')
+
+
+def _twin(kind):
+    """get_evaluable_indices(ielem), compiled and evaluated, must give getindex(ielem) (up to the reshape to point axes)."""
+    from nutils import sample, evaluable, types
+    rng = numpy.random.RandomState(2)
+    if kind == '_Empty':
+        v = evaluable.compile(sample.Sample.empty(('X', 'Y'), 2).get_evaluable_indices(evaluable.constant(0)))({})
+        if numpy.asarray(v).size != 0:
+            print('REPLAY: VIOLATION-CONFIRMED _Empty.get_evaluable_indices evaluates to a non-empty array', numpy.asarray(v).shape)
+        else:
+            print('REPLAY: not reproduced')
+        return
+    ops1, ops2 = _operands('X', rng), _operands('Y', rng)
+    cands = []
+    if kind in ('_DefaultIndex', '_CustomIndex'):
+        cands = [s for s, c in ops1 if type(s).__name__ == kind]
+    elif kind == '_Mul':
+        cands = [sample._Mul(a, b) for a, _ in ops1[:4] for b, _ in ops2[:4]]
+    elif kind == '_Zip':
+        cands = [sample._Zip(a, b) for a, _ in ops1 for b, _ in ops2 if a.npoints == b.npoints]
+    elif kind == '_TakeElements':
+        cands = [sample._TakeElements(a, types.arraydata(numpy.array(ind))) for a, _ in ops1[:4] for ind in ([0], [a.nelems - 1, 0])]
+    n = 0
+    for s in cands:
+        try:
+            f = evaluable.compile(s.get_evaluable_indices(evaluable.InRange(evaluable.Argument('ielem', (), int), evaluable.constant(s.nelems))))
+            for e in range(s.nelems):
+                n += 1
+                got, want = numpy.asarray(f(dict(ielem=e))), numpy.asarray(s.getindex(e))
+                if got.ravel().tolist() != want.tolist():
+                    print('%s element %d: get_evaluable_indices evaluates to %s, getindex returns %s' % (kind, e, got.tolist(), want.tolist()))
+                    print('REPLAY: VIOLATION-CONFIRMED evaluation scatters points to other positions than Sample.index advertises')
+                    return
+        except Exception as ex:
+            print('%s: %s: %s' % (kind, type(ex).__name__, ex))
+            print('REPLAY: VIOLATION-CONFIRMED get_evaluable_indices fails on a valid sample')
+            return
+    print('compared %d elements of %d %s samples' % (n, len(cands), kind))
+    print('REPLAY: not reproduced on the small family')
+
+
+def transform_weights():
+    """TransformPoints.weights on a reflected and stretched line / square: weights must be w * |det|."""
+    from nutils import points, transform, element
+    for ref, A in [(element.getsimplex(1), [[-2.]]), (element.getsimplex(1) ** 2, [[0., 3.], [1., 0.]]), (element.getsimplex(2), [[.5, 0.], [0., .5]])]:
+        p = ref.getpoints('gauss', 3)
+        A = numpy.array(A)
+        from nutils import types
+        t = transform.Square(types.arraydata(A), types.arraydata(numpy.zeros(len(A))))
+        tp = points.TransformPoints(p, t)
+        want = numpy.asarray(p.weights) * abs(numpy.linalg.det(A))
+        got = numpy.asarray(tp.weights)
+        if got.shape != want.shape or not numpy.allclose(got, want, atol=1e-14):
+            print('matrix %s: weights %s, expected w*|det| = %s' % (A.tolist(), got.tolist(), want.tolist()))
+            print('REPLAY: VIOLATION-CONFIRMED transformed weights are not the original weights times |det|')
+            return
+    print('REPLAY: not reproduced')
